@@ -72,10 +72,14 @@ def run(ctx, res):
             vars_, objs = X.ctx_sx(jinja2, data)
             wrapper = rng.choice(WRAPPERS) if rng.random() < 0.4 else WRAPPERS[0]
             runs = []
-            for name, v, s, dd in (("optimized", vo, src, data), ("unoptimized", vn, src, data), ("constants-lifted", vo, lsrc, dict(data, **lenv))):
-                out = render_wrapped(v, wrapper, s, dd)
-                runs.append((name, out, X.canon(v.log)))
+            with core.mem_cap(3 << 30):
+                for name, v, s, dd in (("optimized", vo, src, data), ("unoptimized", vn, src, data), ("constants-lifted", vo, lsrc, dict(data, **lenv))):
+                    out = render_wrapped(v, wrapper, s, dd)
+                    runs.append((name, out, X.canon(v.log)))
             evaluations += 3
+            if any(out == ("err", "other:MemoryError") or (out[0] == "ok" and len(out[1]) > 400000) for _, out, _ in runs):
+                oom += 1            # a perturbed integer repeated a sequence beyond the model's domain (Model.repGuard)
+                continue
             X.kinds(tree, kinds)
             distinct.add((src, wrapper[0], vo.label()))
             events_seen += len(runs[0][2])
